@@ -81,6 +81,7 @@ func (u *Unit) mapLoadVal(st *State, mt *types.Map, mref, k Term) Value {
 	}
 	terms := make([]Term, len(lfs))
 	for i, lf := range lfs {
+		u.m.markRef(u.mapValName(mt, lf.Path), lf.Kind)
 		comp := u.m.comp(st, u.mapValName(mt, lf.Path), ArrSort(SInt, ArrSort(ks, lf.Sort)))
 		terms[i] = u.c.Def("mv", Select(Select(comp, mref), k))
 		u.m.assumeLeafType(st, terms[i], lf.T, lf.Kind)
@@ -107,6 +108,7 @@ func (u *Unit) mapStore(st *State, mt *types.Map, mref Term, kv, vv Value) {
 	terms := u.m.flatten(mt.Elem(), vv)
 	for i, lf := range lfs {
 		name := u.mapValName(mt, lf.Path)
+		u.m.markRef(name, lf.Kind)
 		comp := u.m.comp(st, name, ArrSort(SInt, ArrSort(ks, lf.Sort)))
 		st.heap[name] = u.c.Def(name, Store(comp, mref, Store(Select(comp, mref), k, terms[i])))
 	}
